@@ -32,7 +32,7 @@ PROP = {
                   "Proofs/GenesisImportProofs.v", "Proofs/GenesisCommitProofs.v",
                   "Exchange/KeyTable.v", "Gen/GenExchangeKeys.v", "Exchange/KeyCoverage.v", "Proofs/KeyCoverageProofs.v",
                   "Corr/CorrBase.v", "Corr/C13.v"],
-    "rule": "joint histories of 22-35 operations (the first two create the base markets) over 2-6 markets, 3 owners, asset denoms aaa/aaab/bbb (prefixes of each other on purpose) plus, per history, three denoms out of Aaa/aaA/AAA (case twins of aaa), an IBC voucher denom ibc/<64 upper-case hex> and its lower-case twin, its 12- and 13-character prefixes, fac/T.k-n1 / Fac/T.k-n1, a 128-character denom and its 127-character prefix (two of the three are siblings: case twins or prefixes of one another; three scripted orders per history land on them; half of all orders and commitments use them), price denoms pricecoin / Pricecoin / ibc/PRICE0F / p1.x-y/Q / a 128-character one, creations with illegal denoms (':' '_' leading digit, 2 and 129 characters); owner, source and target strings of messages and of every query request in lower or UPPER-case bech32 (one request in three), payments created with upper-case Source / Target strings (scripted into every third history: a payment with an upper-case target that is then re-targeted to the same account; into every other third: an upper-case source), accept with the stored or the other spelling, reject-all with one source in both spellings; genesis cases: InitGenesis of 2-3 markets under random ids, 0-8 orders under random pairwise different ids 1..40 in random order, LastOrderId at or above (sometimes below) the largest, 0-4 commitments (one (market, account) possibly twice), 0-5 payments in both spellings (sometimes one payment under both spellings of its source), an unknown market or a doubly carried external id at random, followed by an observation step and 8-12 operations; external ids from a pool of 5 plus empty/100/101-byte ones (a 100-byte order id, a 100-byte payment id and a source holding an empty-id payment next to another one are scripted into every sixth history), payments incl. empty external ids, commitments in 1-2 denoms incl. malformed amounts, market creations with automatic / explicit / already-used ids incl. an explicit id exactly where the automatic counter stands and a foreign account on the next automatic id, an external id given up (changed or cleared, the order then cancelled or not) and taken again by another order of the market through creation and through set-external-id (scripted into every third history, attempted at random elsewhere); a third of the histories is paged after every step; a history (= one case) is non-trivial when it has accepted operations and ends with open orders, payments or commitments; distinct = distinct operation/outcome sequences; the number of distinct paging-session shapes (endpoint, type filter, after bound, direction, mode, size) is reported separately as stats.distinct_session_shapes",
+    "rule": "joint histories of 22-35 operations (the first two create the base markets) over 2-6 markets, 3 owners, asset denoms aaa/aaab/bbb (prefixes of each other on purpose) plus, per history, three denoms out of Aaa/aaA/AAA (case twins of aaa), an IBC voucher denom ibc/<64 upper-case hex> and its lower-case twin, its 12- and 13-character prefixes, fac/T.k-n1 / Fac/T.k-n1, a 128-character denom and its 127-character prefix (two of the three are siblings: case twins or prefixes of one another; three scripted orders per history land on them; half of all orders and commitments use them), price denoms pricecoin / Pricecoin / ibc/PRICE0F / p1.x-y/Q / a 128-character one, creations with illegal denoms (':' '_' leading digit, 2 and 129 characters); owner, source and target strings of messages and of every query request in lower or UPPER-case bech32 (one request in three), payments created with upper-case Source / Target strings (scripted into every third history: a payment with an upper-case target that is then re-targeted to the same account; into every other third: an upper-case source), accept with the stored or the other spelling, reject-all with one source in both spellings; genesis cases: InitGenesis of 2-3 markets under random ids, 0-8 orders under random pairwise different ids 1..40 in random order, LastOrderId at or above (sometimes below) the largest, 0-4 commitments (one (market, account) possibly twice), 0-5 payments in both spellings (sometimes one payment under both spellings of its source), an unknown market or a doubly carried external id at random, followed by an observation step and 8-12 operations; external ids from a pool of 5 plus empty/100/101-byte ones and NON-ASCII ones (multi-byte UTF-8 at 99 / 100 / 101 / 102 bytes, ids of at most 100 characters but more than 100 bytes such as 51 x U+00E9 or 100 x U+5B57, invalid UTF-8, ids that are byte prefixes of one another such as C3 / C3 A9 / 50 x C3 A9: one draw in four of a non-empty id, and scripted into every history through create, set-external-id and payment creation; the limit is 100 BYTES in the model, in ValidateExternalID and in the lookup guard; after every step the external id of EVERY open order is looked up in its market by the gRPC query and by the keeper, every stored payment by GetPayment) (a 100-byte order id, a 100-byte payment id and a source holding an empty-id payment next to another one are scripted into every sixth history), payments incl. empty external ids, commitments in 1-2 denoms incl. malformed amounts, market creations with automatic / explicit / already-used ids incl. an explicit id exactly where the automatic counter stands and a foreign account on the next automatic id, an external id given up (changed or cleared, the order then cancelled or not) and taken again by another order of the market through creation and through set-external-id (scripted into every third history, attempted at random elsewhere); a third of the histories is paged after every step; a history (= one case) is non-trivial when it has accepted operations and ends with open orders, payments or commitments; distinct = distinct operation/outcome sequences; the number of distinct paging-session shapes (endpoint, type filter, after bound, direction, mode, size) is reported separately as stats.distinct_session_shapes",
     "assumptions": ["store iteration is ascending bytewise key order and a prefix store shows exactly the keys with that prefix (cosmossdk.io/store), as transcribed in Exchange/KV.v",
                     "histories are shorter than 2^64-1 operations (nextOrderID is uint64 and wraps)",
                     "page arithmetic does not overflow: entries + limit + 1 < 2^64 for the multi-page theorems; limit = 2^64-1 has its own theorems: C13_max_limit_one_page (filteredPaginateAfterOrder, every offset), C13_max_limit_sdk_paginate_one_page and C13_max_limit_sdk_filtered_one_page (SDK routines, offset 0; with an offset >= 1 they return an empty page, C13_max_limit_sdk_offset_remark)",
